@@ -24,6 +24,8 @@ def gen(args):
         Xi = P.centred_lattice(rng, n, m, 4, "lowrank" if shape == "lowrank" else "full")
         p = int(rng.integers(1, 3))
         Yi = P.centred_lattice(rng, n, p, 4)
+        if shape != "illcond" and rng.random() < 0.15:
+            Yi[:, 0] = Xi[:, int(rng.integers(m))]          # a target that is exactly one of the features
         xpert = None
         if shape == "illcond":
             # condition number about 1e7: the last column repeats the first one up to 2^-22 z, and the targets contain z, so
